@@ -1,6 +1,6 @@
 #!/bin/sh
 # tools/runall.sh [tier]: run every registered check on the current /repo tree, one line per property
-cd /verif
+cd "$(dirname "$0")/.."
 tier=${1:-quick}
 for p in C01 C02 C03 C04 C05 C06 C07 C08 C09 C10 C11 C12 C13 C14 C15 C16 C17 C18 C19; do
   bin/check $p --tier $tier 2>/dev/null | grep -E "^(VIOLATION|KNOWN-FINDING|C[0-9][0-9]:)" | cut -c1-220
